@@ -174,9 +174,9 @@ def oracle_c09(case: dict, obs: dict) -> list[tuple[dict, str]]:
     pend = [i for i, r in obs["results"].items() if r.get("outcome") == "pending"]
     if pend:
         out.append(({"clause": "caller-unanswered"}, f"callers {pend} never answered"))
-    exp_state = "IsInIdle" if fin["connected"] else "Inactive"
-    if fin["state"] != exp_state:
-        out.append(({"clause": "not-idle", "state": fin["state"], "connected": fin["connected"]}, f"final state {fin['state']}, expected {exp_state}"))
+    ok_states = ("IsInIdle",) if fin["connected"] else ("IsInIdle", "Inactive")  # "idle (or inactive if disconnected)"
+    if fin["state"] not in ok_states:
+        out.append(({"clause": "not-idle", "state": fin["state"], "connected": fin["connected"]}, f"final state {fin['state']}, expected one of {ok_states}"))
     if fin["fut_pending"] or fin["cmd_set"] or fin["timer_pending"]:
         out.append(({"clause": "something-in-flight"}, f"{fin}"))
     if isinstance(fin.get("is_sending"), str):
